@@ -948,7 +948,7 @@ def single_def(body, l):
   return None
 
 
-def describe_operand(body, op, depth=0):
+def describe_operand(body, op, depth=0, hops=0):
   """a short symbolic description of where an operand comes from (one or a few steps back)"""
   if op is None:
     return ('?',)
@@ -962,10 +962,10 @@ def describe_operand(body, op, depth=0):
       return ('fn', norm(k['fn']))
     return ('const', None)
   p = op_place(op)
-  return describe_place(body, p, depth)
+  return describe_place(body, p, depth, hops)
 
 
-def describe_place(body, p, depth=0):
+def describe_place(body, p, depth=0, hops=0):
   cv = body.covar_of(p)
   if cv is not None:
     rest = tuple(str(e.get('n', e['f'])) for e in cv[1] if isinstance(e, dict) and 'f' in e)
@@ -1008,11 +1008,13 @@ def describe_place(body, p, depth=0):
   rv = d['rv']
   k = rv['k']
   if k in ('use', 'cast'):
-    inner = describe_operand(body, rv['o'], depth + 1)
+    # copies through compiler temporaries are not part of the expression: they do not count towards the depth limit
+    # (otherwise the rendering would depend on how many overflow-check temporaries the build configuration inserts)
+    inner = describe_operand(body, rv['o'], depth, hops + 1) if hops < 60 else ('tmp', l)
     if k == 'cast' and rv.get('ck') not in ('PointerCoercion', 'Subtype', 'Transmute', 'PtrToPtr'):
       inner = ('cast', rv.get('ty'), inner)
   elif k in ('ref', 'rawptr'):
-    inner = describe_place(body, rv['p'], depth + 1)
+    inner = describe_place(body, rv['p'], depth, hops + 1) if hops < 60 else ('tmp', l)
   elif k == 'bin':
     inner = ('bin', rv['op'].replace('WithOverflow', ''), describe_operand(body, rv['a'], depth + 1), describe_operand(body, rv['b'], depth + 1))
   elif k == 'un':
